@@ -25,7 +25,7 @@ def loop(rng):
 
 
 def waitdag(rng):
-    spec = gen.gen_wait_dag(rng, False, p_default_edge=rng.choice([0.0, 0.3]))
+    spec = gen.gen_wait_dag(rng, False, p_default_edge=rng.choice([0.0, 0.3, 0.4]))
     inputs = {k: f"run:{k}" for k in gen.consumed_inputs(spec)}
     if "sg" in inputs:
         inputs["sg"] = rng.randint(0, 1)
